@@ -1024,7 +1024,8 @@ INVARIANT ExecuteOnlyIfReaches
     # stratify: equal shares per (kind, prediction)
     strata = {}
     for item in recs:
-        strata.setdefault((item[0]['kind'], item[0]['prediction']), []).append(item)
+        strata.setdefault((item[0]['kind'], item[0]['prediction'],
+                           item[0].get('npending', 1) == 0), []).append(item)
     chosen = []
     keys = sorted(strata)
     for k in keys:
@@ -1062,6 +1063,7 @@ INVARIANT ExecuteOnlyIfReaches
         unchanged = (pre_db == post_db and obs['pre']['book'] == obs['post']['book'])
         detail = {'valid_evolution': base, 'perturbation': rec['kind'], 'perturbed': pert,
                   'start': rec['start'], 'prediction': rec['prediction'],
+                  'effective_mutations': rec.get('npending'),
                   'outcome': obs['outcome'], 'error': obs['error_type'], 'msg': obs['error_msg'],
                   'writes': obs['writes'][:6], 'sources': obs['sources']}
         if rejected and not executed:
@@ -1079,7 +1081,8 @@ INVARIANT ExecuteOnlyIfReaches
                 report.notes.append('executed then failed (%s): %s' % (obs['error_msg'][:80], pert))
             elif not (obs['after_diff_empty'] and not obs['after_required']):
                 report.fail({'class': 'executed-without-reaching-models',
-                             'predicted': rec['prediction']},
+                             'predicted': rec['prediction'],
+                             'no_effective_mutation': rec.get('npending') == 0},
                             dict(detail, after_required=obs['after_required'],
                                  after_diff_empty=obs['after_diff_empty'],
                                  after_error=obs['after_error']))
